@@ -94,6 +94,7 @@ class _Run:
         self.end: Dict[str, str] = {}          # receiver -> how it ended
         self.in_op: Dict[str, Optional[str]] = {}
         self.injected_cancel: set = set()
+        self.sf_calls: List[Dict[str, Any]] = []  # one record per send_from call of a sender actor
         self.must_surface_cancel: set = set()     # receivers cancelled while truly blocked in the channel
         self.direct_receivers: set = set()        # receivers calling receive() / __anext__ / async-for themselves
         self.close_seq: Optional[int] = None   # seq of the first close() the harness itself invoked
@@ -186,6 +187,25 @@ class _Run:
             self.stats["probe:cancel-landed-between-wakeup-and-resumption"] += 1
 
     async def sender(self, a: str, cfg) -> None:
+        """One sender: a single send loop / send_from call, or - mixed - a send_from of the first items followed
+        by plain sends of the rest (or the other way round); optionally it closes the channel itself as soon as
+        its last call has returned, without yielding in between (the README idiom)."""
+        items = cfg["items"]
+        if cfg.get("mixed") is not None and len(items) >= 2 and not cfg["close"]:
+            k = 1 + cfg["mixed"] % (len(items) - 1)
+            first, rest = items[:k], items[k:]
+            sf_mode = cfg["mode"] or 3
+            a_mode, b_mode = (sf_mode, 0) if cfg["mixed_order"] == 0 else (0, sf_mode)
+            self.stats["probe:sender-mixes-send-and-send_from"] += 1
+            await self._send_segment(a, dict(cfg, items=first, mode=a_mode))
+            await self._send_segment(a, dict(cfg, items=rest, mode=b_mode))
+        else:
+            await self._send_segment(a, cfg)
+        if cfg.get("then_close"):
+            self.stats["probe:sender-closes-right-after-its-last-send"] += 1
+            self.do_close(a)
+
+    async def _send_segment(self, a: str, cfg) -> None:
         ch = self.ch
         items = cfg["items"]
         mode = cfg["mode"]
@@ -276,10 +296,13 @@ class _Run:
                 pull(k)
         closing = cfg["close"]
         self.in_op[a] = "send_from"
-        self.ev(a, "inv", "send_from", (len(items), closing, kind))
+        call = dict(actor=a, items=list(items), outcome=None)
+        call["inv"] = self.ev(a, "inv", "send_from", (len(items), closing, kind))
+        self.sf_calls.append(call)
         try:
             await ch.send_from(src, close=closing)
         except ChannelClosed:
+            call["outcome"] = "ChannelClosed"
             # whatever was pulled before the rejection may or may not have been put (an implementation that
             # checks per item has put the earlier ones): the outcome of the individual items is unknown,
             # the call as a whole is what gets judged
@@ -614,7 +637,10 @@ class _Run:
             n = 1 + tape.draw(3, "n_items")
             close = bool(tape.draw(3, "send_from-close") == 2) if mode else False
             scfg.append(dict(mode=mode, items=[Tok((f"s{s}", k)) for k in range(n)], close=close,
-                             cancel_after_send=None))
+                             cancel_after_send=None,
+                             mixed=(tape.draw(4, "mixed-split") if tape.draw(5, "mixed-sender?") == 4 else None),
+                             mixed_order=tape.draw(2, "mixed-order"),
+                             then_close=(tape.draw(5, "then-close?") == 4 and not close)))
         # the two library-internal consumers are exercised only while they exist under these names
         w_send = 2 if callable(getattr(ServiceStub, "_send_messages", None)) else 0
         w_ss = 2 if (w_send and callable(getattr(ServiceStub, "_stream_stream", None))) else 0
@@ -768,15 +794,22 @@ class _Run:
                 raise Violation("C12.R1", "duplicate", f"item {it} received {len(lst)} times: {lst}")
         # R5, per send_from call: a call invoked after close returned raises ChannelClosed and delivers nothing
         if close_ret is not None:
-            raised_sf = {a for (s, a, k, op, d) in self.events if op == "send_from" and k == "raise"}
-            for (s, a, k, op, d) in self.events:
-                if op == "send_from" and k == "inv" and s > close_ret:
-                    if a not in raised_sf:
-                        raise Violation("C12.R5", "send-after-close-accepted",
-                                        f"{a}: send_from invoked at #{s} after close returned at #{close_ret} did not raise ChannelClosed")
-                    leaked = [it for it in recvd if it[0] == a]
-                    if leaked:
-                        raise Violation("C12.R5", "rejected-send-delivered", f"{a}: send_from was rejected yet {leaked} delivered")
+            late_calls = [c for c in self.sf_calls if c["inv"] > close_ret]
+            for (s, a, k, op, d) in self.events:       # the late sender's calls are recorded as events only
+                if a == "late" and op == "send_from" and k == "inv" and s > close_ret:
+                    late_calls.append(dict(actor=a, inv=s, items=[it for it in sent_inv if it[0] == "late"],
+                                           outcome="ChannelClosed" if any(
+                                               a2 == "late" and op2 == "send_from" and k2 == "raise"
+                                               for (_, a2, k2, op2, _) in self.events) else None))
+            for c in late_calls:
+                if c["outcome"] != "ChannelClosed":
+                    raise Violation("C12.R5", "send-after-close-accepted",
+                                    f"{c['actor']}: send_from invoked at #{c['inv']} after close returned at #{close_ret} "
+                                    f"did not raise ChannelClosed")
+                leaked = [it for it in c["items"] if it in recvd]
+                if leaked:
+                    raise Violation("C12.R5", "rejected-send-delivered",
+                                    f"{c['actor']}: send_from was rejected yet {leaked} delivered")
         # R5, per send
         for it, s in sent_inv.items():
             if it in self.sf_items:
